@@ -303,3 +303,70 @@ Theorem rule_reorder_loops : forall i j body li hi lj hj pi pj st st' vli vhi vl
 Proof.
   intros. rewrite single in *. eapply reorder_run; eassumption.
 Qed.
+
+(** ** the whole-procedure rewrite, as the implementation performs it *)
+From Core Require Import RewriteAt.
+
+Definition reorder_f (i : sym) (s : stmt) : option stmt :=
+  match s with
+  | For i' li hi [For j lj hj body pj] pi =>
+      if Pos.eqb i' i then Some (For j lj hj [For i' li hi body pi] pj) else None
+  | _ => None
+  end.
+
+(** the decidable part of the side conditions *)
+Definition reorder_syn_ok (i : sym) (s : stmt) : bool :=
+  match s with
+  | For i' li hi [For j lj hj body pj] pi =>
+      negb (Pos.eqb i' j) && env_only li && env_only hi && env_only lj && env_only hj
+      && negb (mentions i' lj) && negb (mentions i' hj) && negb (mentions j li) && negb (mentions j hi)
+      && forallb (okbind (okbS j)) body && forallb (nm_s j (fun _ => false)) body
+  | _ => false
+  end.
+
+(** the semantic part: what the implementation's checks establish (bounds of the inner loop are defined and ordered
+    wherever the outer loop runs; flipped instances commute) *)
+Definition reorder_sem_ok (s : stmt) : Prop :=
+  match s with
+  | For i' li hi [For j lj hj body pj] pi =>
+      forall st vli vhi, eval st li = Ok (VInt vli) -> eval st hi = Ok (VInt vhi) -> vli <= vhi ->
+        exists vlj vhj, eval st lj = Ok (VInt vlj) /\ eval st hj = Ok (VInt vhj) /\ vlj <= vhj /\
+                        reorder_contract i' j body vli vhi vlj vhj
+  | _ => True
+  end.
+
+Lemma reorder_f_sound : forall i s s',
+  reorder_sem_ok s -> reorder_f i s = Some s' -> reorder_syn_ok i s = true -> refines [s] [s'].
+Proof.
+  intros i s s' Hsem Hf Hok.
+  destruct s as [| | | | |i' li hi body0 pi| | |]; cbn [reorder_f] in Hf; try discriminate Hf.
+  destruct body0 as [|[| | | | |j lj hj body pj| | |] [|? ?]]; try discriminate Hf.
+  destruct (Pos.eqb i' i) eqn:E; [|discriminate Hf]. injection Hf as <-.
+  cbn [reorder_syn_ok] in Hok.
+  repeat (match goal with H : _ && _ = true |- _ => apply andb_true_iff in H; destruct H end).
+  repeat (match goal with H : negb _ = true |- _ => apply negb_true_iff in H end).
+  match goal with H : Pos.eqb i' j = false |- _ => apply Pos.eqb_neq in H end.
+  intros st st' Hrun.
+  assert (exists vli vhi, eval st li = Ok (VInt vli) /\ eval st hi = Ok (VInt vhi) /\ vli <= vhi) as [vli [vhi [Eli [Ehi Hle]]]].
+  { rewrite single, exec_For in Hrun.
+    destruct (eval st li) as [v1|]; cbn [bind] in Hrun; [|discriminate Hrun].
+    destruct v1 as [z1| |]; cbn [as_int bind] in Hrun; try discriminate Hrun.
+    destruct (eval st hi) as [v2|]; cbn [bind] in Hrun; [|discriminate Hrun].
+    destruct v2 as [z2| |]; cbn [as_int bind] in Hrun; try discriminate Hrun.
+    destruct (z2 <? z1) eqn:Elt; [discriminate Hrun|]. apply Z.ltb_ge in Elt.
+    exists z1, z2. auto. }
+  destruct (Hsem st vli vhi Eli Ehi Hle) as [vlj [vhj [Elj [Ehj [Hlej Hc]]]]].
+  eapply rule_reorder_loops; eassumption.
+Qed.
+
+Definition reorder_proc (i : sym) : proc -> proc := rw_proc (reorder_f i).
+Definition reorder_ok_proc (i : sym) : proc -> bool := ok_proc (reorder_f i) (reorder_syn_ok i).
+
+Theorem reorder_proc_preserves : forall i p inp bufs cfg,
+  (forall s s', reorder_f i s = Some s' -> reorder_sem_ok s) ->
+  reorder_ok_proc i p = true -> run p inp = Done bufs cfg -> run (reorder_proc i p) inp = Done bufs cfg.
+Proof.
+  intros i p inp bufs cfg Hsem Hok. unfold reorder_proc, reorder_ok_proc in *.
+  apply rw_proc_preserves with (ok := reorder_syn_ok i); [|exact Hok].
+  intros s s' Hf Hs. eapply reorder_f_sound; [eapply Hsem; exact Hf|exact Hf|exact Hs].
+Qed.
